@@ -64,7 +64,8 @@ func drawCase(t *rapid.T) caseT {
 				any = true
 			}
 		}
-		if !any {
+		// a split may legally upload nothing (empty source, filter matching nothing): keep some of them empty
+		if !any && rapid.IntRange(0, 2).Draw(t, "keepempty") > 0 {
 			c.Versions = append(c.Versions, versionT{Split: s, Path: 0, V: rapid.IntRange(0, 3).Draw(t, "v0")})
 		}
 	}
